@@ -14,8 +14,9 @@ import (
 var reBounded = regexp.MustCompile(`BOUNDED cases=(\d+) distinct=(\d+) bound="([^"]*)"`)
 
 // runExtra runs an additional engine of a property check.
-//   bounded:<name>:<pkg rel>:<TestName>  - a bounded stand-in: an exhaustive/enumerating Go test in
-//   /verif/bounded/<name>_bounded_test.go executed on the real code through `go test -overlay`.
+//
+//	bounded:<name>:<pkg rel>:<TestName>  - a bounded stand-in: an exhaustive/enumerating Go test in
+//	/verif/bounded/<name>_bounded_test.go executed on the real code through `go test -overlay`.
 func runExtra(spec string, cfg *PropConfig, tier string, w *World) *FuncReport {
 	parts := strings.Split(spec, ":")
 	switch parts[0] {
